@@ -26,6 +26,33 @@ pub open spec fn masks_ok(s: Seq<%(SAT)s>, c: Seq<%(SIG)s>, sm: u64, gm: u32, cm
     &&& n == crate::msg::cnt64(sm, 64) * crate::msg::cnt32(gm, 32)
     &&& forall|q: int| 0 <= q < n ==> (crate::msg::cellbit(cm, n, q) <==> cell_in(c, c.len() as int, sm, gm, q))
 }
+// two cells with the same satellite and the same signal position
+pub open spec fn dup_cell(c: Seq<%(SIG)s>) -> bool {
+    exists|i: int, j: int| 0 <= i < j < c.len() && (#[trigger] c[i]).satellite_id == (#[trigger] c[j]).satellite_id && to_id_spec(c[i].signal_id) == to_id_spec(c[j].signal_id)
+}
+// the row-major index determines the cell: equal indices of two cells whose satellite and signal bits are set mean the same satellite and signal
+pub proof fn lemma_cell_idx_inj(c: Seq<%(SIG)s>, i: int, j: int, sm: u64, gm: u32)
+    requires
+        0 <= i < c.len(), 0 <= j < c.len(),
+        1 <= c[i].satellite_id <= 64, 1 <= c[j].satellite_id <= 64, to_id_spec(c[i].signal_id) is Some, to_id_spec(c[j].signal_id) is Some,
+        crate::msg::bit64(sm, c[i].satellite_id as int), crate::msg::bit64(sm, c[j].satellite_id as int),
+        crate::msg::bit32(gm, to_id_spec(c[i].signal_id)->Some_0 as int), crate::msg::bit32(gm, to_id_spec(c[j].signal_id)->Some_0 as int),
+        cell_idx(c, i, sm, gm) == cell_idx(c, j, sm, gm),
+    ensures c[i].satellite_id == c[j].satellite_id, to_id_spec(c[i].signal_id) == to_id_spec(c[j].signal_id),
+{
+    lemma_id_range(c[i].signal_id); lemma_id_range(c[j].signal_id);
+    let p1 = c[i].satellite_id as nat; let p2 = c[j].satellite_id as nat;
+    let g1 = to_id_spec(c[i].signal_id)->Some_0 as nat; let g2 = to_id_spec(c[j].signal_id)->Some_0 as nat;
+    let ng = crate::msg::cnt32(gm, 32) as int;
+    let a1 = crate::msg::cnt64(sm, (p1 - 1) as nat) as int; let a2 = crate::msg::cnt64(sm, (p2 - 1) as nat) as int;
+    let b1 = crate::msg::cnt32(gm, (g1 - 1) as nat) as int; let b2 = crate::msg::cnt32(gm, (g2 - 1) as nat) as int;
+    crate::msg::lemma_rank32_lt(gm, g1); crate::msg::lemma_rank32_lt(gm, g2);
+    assert(a1 == a2 && b1 == b2) by(nonlinear_arith) requires a1 * ng + b1 == a2 * ng + b2, 0 <= b1 < ng, 0 <= b2 < ng, a1 >= 0, a2 >= 0;
+    if p1 < p2 { crate::msg::lemma_rank64_inj(sm, p1, p2); }
+    if p2 < p1 { crate::msg::lemma_rank64_inj(sm, p2, p1); }
+    if g1 < g2 { crate::msg::lemma_rank32_inj(gm, g1, g2); }
+    if g2 < g1 { crate::msg::lemma_rank32_inj(gm, g2, g1); }
+}
 pub open spec fn msm_valid(s: Seq<%(SAT)s>, c: Seq<%(SIG)s>) -> bool {
     &&& forall|j: int| 0 <= j < s.len() ==> 1 <= #[trigger] s[j].satellite_id <= 64
     &&& forall|i: int, j: int| 0 <= i < j < s.len() ==> s[i].satellite_id != s[j].satellite_id
@@ -73,6 +100,9 @@ def emit(vf, exp, path, fr, ind):
     # the complete wire layout of the data segment (C10, encode side): the three masks, then the satellite rows and the cell rows, each a
     # sorted permutation of the caller's list, column-major (rows_enc of the row fragments, proved on their encode_checked)
     sp.ensures.append(('l2.%s.encode.rows_sorted_after_masks' % pid, {'C10', 'C01'}, LAYOUT % {'SATM': satmod, 'SIGM': sigmod, 'SAT': SAT, 'SIG': SIG}))
+    sp.ensures.append(('l2.%s.encode.err.duplicate_cell' % pid, {'C10'},
+                       'r is Err && r->Err_0 is DuplicateSatelliteSignal ==> dup_cell(value.signal_data@)'))
+    sp.ensures.append(('l2.%s.encode.accepts_no_duplicate_cell' % pid, {'C10'}, 'r is Ok ==> !dup_cell(value.signal_data@)'))
     sp.ensures.append(('l2.%s.encode.poison' % pid, set(), 'old(asm).poison() ==> final(asm).poison()'))
     sp.ensures.append(('l2.%s.encode.appends_enc' % pid, {'C01'}, ENC_POST_MSM))
     A = sp.inserts.append
@@ -92,10 +122,45 @@ def emit(vf, exp, path, fr, ind):
     A(('after', 'let cell_cont_len =', 0, ch['ccl']))
     A(('before', 'return Err(RtcmError::InvalidSatelliteSignalCount);', 0, ch['toomany']))
     A(('after', 'let mut cell_mask: u64 = 0;', 0, ch['cm0']))
-    sp.loops[4] = ch['inv4']
+    sp.loops[4] = ch['inv4'].replace('    decreases verif_sl2.len() - verif_k2,',
+                                     '        vc == value.signal_data@, vs == value.satellite_data@,\n'
+                                     '        forall|i: int, j: int| 0 <= i < j < verif_k2 ==> #[trigger] cell_idx(vc, i, sat_mask, sig_mask) != #[trigger] cell_idx(vc, j, sat_mask, sig_mask),\n'
+                                     '    decreases verif_sl2.len() - verif_k2,')
+    if 'forall|i: int, j: int| 0 <= i < j < verif_k2' not in sp.loops[4]:
+        raise vgen.ToolLimit('msm proof file: invariant 4 has no decreases line to extend')
+    if 'return Err(RtcmError::DuplicateSatelliteSignal);' in fr.enc_body:    # when the check is gone Verus decides accepts_no_duplicate_cell
+      A(('before', 'return Err(RtcmError::DuplicateSatelliteSignal);', 0,
+       '''proof {
+    let n = cell_cont_len as u64; let a = cell_indx as u64;
+    crate::msg::lemma_setcell(cell_mask, n, a, a);
+    assert(cell & cell_mask == cell_mask & cell) by(bit_vector);
+    assert(cell_in(vc, verif_k2 as int, sat_mask, sig_mask, cell_indx as int));
+    let j0 = choose|j: int| 0 <= j < verif_k2 && #[trigger] cell_idx(vc, j, sat_mask, sig_mask) == cell_indx as int;
+    assert(csat_in(vc, vc.len() as int, vc[j0].satellite_id as int)); assert(csat_in(vc, vc.len() as int, vc[verif_k2 as int].satellite_id as int));
+    lemma_id_range(vc[j0].signal_id); lemma_id_range(vc[verif_k2 as int].signal_id);
+    assert(to_id_spec(vc[j0].signal_id) == Some((to_id_spec(vc[j0].signal_id)->Some_0 as int) as u8));
+    assert(to_id_spec(vc[verif_k2 as int].signal_id) == Some((to_id_spec(vc[verif_k2 as int].signal_id)->Some_0 as int) as u8));
+    assert(csig_in(vc, vc.len() as int, to_id_spec(vc[j0].signal_id)->Some_0 as int)); assert(csig_in(vc, vc.len() as int, to_id_spec(vc[verif_k2 as int].signal_id)->Some_0 as int));
+    lemma_cell_idx_inj(vc, j0, verif_k2 as int, sat_mask, sig_mask);
+    assert(dup_cell(vc));
+}'''))
+    A(('after', 'cell_mask |= cell;', 0,
+       '''proof {
+    assert forall|i: int, j: int| 0 <= i < j < verif_k2 + 1 implies #[trigger] cell_idx(vc, i, sat_mask, sig_mask) != #[trigger] cell_idx(vc, j, sat_mask, sig_mask) by {
+        if j == verif_k2 as int && cell_idx(vc, i, sat_mask, sig_mask) == cell_idx(vc, j, sat_mask, sig_mask) { assert(cell_in(vc, verif_k2 as int, sat_mask, sig_mask, cell_indx as int)); }
+    }
+}'''))
     A(('after', 'let (sat_id, sig_id) = verif_sl2[verif_k2];', 0, ch['cell_a']))
     A(('after', 'let cell = 1 << (cell_cont_len - 1 - cell_indx);', 0, ch['cell_b']))
     A(('before', 'asm.put_U64(sat_mask, 64)?;', 0, ch['preput']))
+    A(('before', 'asm.put_U64(sat_mask, 64)?;', 0,
+       '''proof {
+    if dup_cell(vc) {
+        let (i, j) = choose|i: int, j: int| 0 <= i < j < vc.len() && (#[trigger] vc[i]).satellite_id == (#[trigger] vc[j]).satellite_id && to_id_spec(vc[i].signal_id) == to_id_spec(vc[j].signal_id);
+        assert(cell_idx(vc, i, sat_mask, sig_mask) == cell_idx(vc, j, sat_mask, sig_mask));
+    }
+    assert(!dup_cell(vc));
+}'''))
     A(('after', 'asm.put_U64(cell_mask, cell_cont_len)?;', 0, ch['postput']))
     A(('before', 'Ok(())', 1, ch['final']))
     # layout clause: witnesses from the row fragments' contracts
